@@ -239,20 +239,26 @@ def build_jobs(run, recl_default):
     # the package imported before numpy (the pin of hourly/model.py:26-28 then runs first)
     job("opendsm-first", [fit("hourly", dsh[0], "default", sd), fit("daily", dsd[0]), fit("billing", dsb[0])], threads=8,
         imports="opendsm-first")
-    # cold numba cache, populated by default fits (control: cold vs warm alone must not matter)
-    job("cold-jit", [fit("daily", dsd[1]), fit("billing", dsb[1])], cold=True)
-    # a PRIVATE cold numba cache populated by a developer-profile fit with non-default loss settings, followed by a default
-    # fit in that process; then a fresh process on the cache it left.  (numba freezes module-level values into the code it
-    # caches on disk: whatever a fit wrote into a module global would decide the results of later processes)
+    # PRIVATE numba caches.  numba freezes module-level values into the code it caches on disk, so whatever a fit wrote into
+    # a module global would decide the results of later processes.  Cache "dev" is populated (cold) by a developer-profile
+    # fit with non-default loss settings, followed by default fits in that process; two fresh processes then run default
+    # fits on the cache it left.  Control: a cold cache populated by default fits (cold vs warm alone must not matter).
+    # The effect of a frozen loss constant shows on roughly one daily data set in three (measured on seeded/C03-2), hence
+    # several extra daily data sets, fitted on both private caches.
+    extra = [fit("daily", rng.randrange(500000, 900000)) for _ in range(run.n(6, 12))]
+    job("cold-jit", [fit("daily", dsd[1]), fit("billing", dsb[1])] + extra, cold=True)
     dev = fit("daily", dsd[0], "devalpha")
-    pop = job("jit-populated-by-developer-profile", [dev, fit("daily", dsd[0]), fit("billing", dsb[0])], cache="dev", stage=0)
-    job("jit-reuse-developer-cache", [fit("daily", dsd[1]), fit("billing", dsb[1]), fit("daily", dsd[0])], cache="dev", stage=1,
-        populated_by={k: pop[k] for k in ("label", "ops", "threads", "imports", "cold", "cache")})
+    pop = job("jit-populated-by-developer-profile", [dev, fit("daily", dsd[0]), fit("daily", dsd[1]), fit("billing", dsb[0])],
+              cache="dev", stage=0)
+    popspec = {k: pop[k] for k in ("label", "ops", "threads", "imports", "cold", "cache")}
+    h = len(extra) // 2
+    job("jit-reuse-developer-cache", [fit("daily", dsd[1]), fit("billing", dsb[1])] + extra[:h], cache="dev", stage=1, populated_by=popspec)
+    job("jit-reuse-developer-cache", [fit("billing", dsb[0])] + extra[h:], cache="dev", stage=1, populated_by=popspec)
     if thorough:
         jobs[0]["ops"] = jobs[0]["ops"] + [dev]          # the developer profile itself: warm shared cache vs cold
         pop2 = job("jit-populated-by-developer-profile", [dev, fit("billing", dsb[1]), fit("daily", dsd[2])], cache="dev8", stage=0, threads=8)
-        job("jit-reuse-developer-cache", [fit("daily", d) for d in dsd[:4]] + [fit("billing", d) for d in dsb[:3]], cache="dev8", stage=1,
-            threads=8, populated_by={k: pop2[k] for k in ("label", "ops", "threads", "imports", "cold", "cache")})
+        job("jit-reuse-developer-cache", [fit("daily", d) for d in dsd[:4]] + [fit("billing", d) for d in dsb[:3]] + extra[:4], cache="dev8",
+            stage=1, threads=8, populated_by={k: pop2[k] for k in ("label", "ops", "threads", "imports", "cold", "cache")})
     # CalTRACK hourly: fresh with 1 and with 8 threads, and after fits of other families
     # (quick: 2 threads instead of 8 -- a LAPACK-heavy fit with 8 spinning BLAS threads on a shared machine takes minutes)
     for ct in CT:
